@@ -25,6 +25,10 @@ func c06Faults() []c06Fault {
 		e("undefined-name", func() *model.N { return id("qq") }),
 		e("undefined-assign", func() *model.N { return model.Asg("qq", n(1)) }),
 		{Name: "redeclaration", St: func() []*model.N { return []*model.N{model.Var("d", n(1)), model.Var("d", n(2))} }},
+		{Name: "redeclaration-of-unset", St: func() []*model.N { return []*model.N{model.Var("d", nil), model.Var("d", n(2))} }},
+		{Name: "redeclaration-of-nil", St: func() []*model.N {
+			return []*model.N{model.Var("d", n(1)), model.ExprS(model.Asg("d", model.Nil())), model.VarList([]string{"e", "d"}, []*model.N{n(3), n(4)})}
+		}},
 		e("nil+1", func() *model.N { return model.Bin("+", model.Nil(), n(1)) }),
 		e("minus-string", func() *model.N { return model.Un("-", model.Str("s")) }),
 		e("divide-by-zero", func() *model.N { return model.Bin("/", n(1), n(0)) }),
